@@ -53,7 +53,7 @@ def gen_epochs(rng, n, style):
     e = []
     day = Fraction(rng.randrange(1, 300))
     if style == "yearend":  # sets on the last days of a (leap or common) year and the first of the next: days 365, 366, 001
-        yy = rng.choice([60, 80, 96, 0, 4, 8, 12, 20, 48, 99, 1, 19])
+        yy = rng.choice([60, 80, 96, 0, 4, 8, 12, 20, 48, 99, 1, 19]) if n != 13 else 99    # (n = 13: the archive runs from 1999 into 2000)
         day = Fraction(rng.choice([360, 362, 363]))
     year = 1900 + yy if yy >= 50 else 2000 + yy
     cur = datetime.datetime(year, 1, 1) + datetime.timedelta(days=int(day))
@@ -82,7 +82,7 @@ def run(res, tier, seed):
     with common.scratch_dir() as d:
         for fi in range(nfiles):
             style = rng.choice(["dyadic", "random", "random", "pivot"]) if fi % 5 else "yearend"
-            n = rng.choice([1, 2, 3, 5, 20, 120, 400]) if style != "yearend" else rng.choice([12, 20])
+            n = rng.choice([1, 2, 3, 5, 20, 120, 400]) if style != "yearend" else (13 if fi == 0 else rng.choice([12, 20]))
             eps = gen_epochs(rng, n, style)
             if not eps:
                 continue
